@@ -367,3 +367,38 @@ fn c01_cache_step_recursive_chain() {
     core::mem::forget(b);
 }
 
+
+// ---------------------------------------------------------------------------------------------
+// C03: wiring of calculate_information_content (which record count / which per-term set feeds which kind)
+// ---------------------------------------------------------------------------------------------
+fn model_ln(x: f32) -> f32 {
+    x - 1.0
+}
+
+/// One term; record maps and per-term sets of *different* sizes per kind, built with concrete keys:
+/// genes: 1 record / term linked to 1; OMIM: none; ORPHA: 2 records / term linked to 1.
+/// After `calculate_information_content` each kind's IC must be -ln(n/N) of ITS OWN counts
+/// (ln is the deterministic model x-1): gene 0, omim 0, orpha -(0.5 - 1) = 0.5.
+#[kani::proof]
+#[kani::stub(std::hash::RandomState::new, stub_random_state)]
+#[kani::stub(f32::ln, model_ln)]
+#[kani::unwind(7)]
+fn c03_wiring_counts_per_kind() {
+    let mut b: Builder<ConnectedTerms> = small_builder(8, 2);
+    b.hpo_terms.insert(term_lean(3, none(), none(), none()));
+    b.add_gene("g", GeneId::from(7u32));
+    b.add_orpha_disease("o1", OrphaDiseaseId::from(1u32));
+    b.add_orpha_disease("o2", OrphaDiseaseId::from(2u32));
+    {
+        let t = b.hpo_terms.get_mut(tid(3)).unwrap();
+        t.add_gene(GeneId::from(7u32));
+        t.add_orpha_disease(OrphaDiseaseId::from(2u32));
+    }
+    let b2 = b.calculate_information_content().unwrap();
+    let ic = b2.hpo_terms.get(tid(3)).unwrap().information_content();
+    assert!(ic.gene() == 0.0, "gene IC from 1 of 1 genes");
+    assert!(ic.omim_disease() == 0.0, "no OMIM records: IC 0");
+    assert!(ic.orpha_disease() == 0.5, "ORPHA IC from ITS OWN counts: 1 of 2 records");
+    kani::cover!(true, "information content computed for the three kinds");
+    core::mem::forget(b2);
+}
